@@ -373,7 +373,7 @@ func propC04() *PropSpec {
 			}
 			js = append(js, jobsN("css", "VerifCSSHexColor", pick([]int{3, 4, 6}, []int{3, 4, 6, 8}), "prop:#<n symbolic hex digits>, 6 colour properties")...)
 			js = append(js, jobsN("css", "VerifCSSHexAlpha", []int{0}, "#rrggbbaa: 5 colours x symbolic alpha digits x 5 properties incl. shorthands")...)
-			js = append(js, jobsN("css", "VerifCSSUnicodeRange", pick(rng(1, 2), rng(1, 3)), "unicode-range with n ranges out of 15: same code point set")...)
+			js = append(js, jobsN("css", "VerifCSSUnicodeRange", rng(1, 3), "unicode-range with n ranges out of 15: same code point set")...)
 			js = append(js, jobsN("css", "VerifCSSColorName", []int{0}, "every CSS colour keyword x 3 spellings x 6 properties")...)
 			js = append(js, jobsN("css", "VerifCSSNotAColor", pick(rng(3, 3), rng(3, 4)), "identifiers of n symbolic letters that are not colour keywords pass through")...)
 			js = append(js, jobsN("css", "VerifCSSColorFunc", []int{0}, "hsl()/hsla()/rgb()/rgba() on argument grids")...)
